@@ -311,15 +311,113 @@ def f0():
 """ % s}, ["var", "h", "g"]
 
 
+def T_function_as_default_argument(s):
+    return {"main": HEAD + """
+def h():
+    return term('h#%(h)d')
+
+def f1(g=h):
+    return term('f1#%(f1)d', g())
+
+def f0():
+    return dds.keep('/x/p', f1)
+""" % s}, ["h", "f1"]
+
+
+def T_reexport_and_relative_imports(s):
+    return {"__init__": "from .sub import h\n",
+            "sub": """from ddsverif_rt import term
+from . import leaf
+from .leaf import low as lw
+
+def h():
+    return term('h#%(h)d', leaf.low(), lw())
+""" % s,
+            "leaf": """from ddsverif_rt import term
+LV = %(lv)d
+
+def low():
+    return term('low#%(low)d', LV)
+""" % s,
+            "main": HEAD + """
+from %(pkg)s import h
+from %(pkg)s.sub import *
+
+def f1():
+    return term('f1', h())
+
+def f0():
+    return dds.keep('/x/p', f1)
+""" % s}, ["h", "low", "lv"]
+
+
+def T_module_level_lambda(s):
+    return {"main": HEAD + """
+V0 = %(var)d
+g = lambda x: term('lam#%(lam)d', x, V0)
+
+def f1():
+    return term('f1', g(1))
+
+def f0():
+    return dds.keep('/x/p', f1)
+""" % s}, ["var", "lam"]
+
+
+def T_object_attribute_holds_object(s):
+    return {"main": HEAD + """
+class Inner(object):
+    def m(self):
+        return term('Inner.m#%(inner)d')
+
+class Outer(object):
+    def __init__(self):
+        self.inner = Inner()
+
+    def run(self):
+        return term('Outer.run#%(outer)d', self.inner.m())
+
+def f1():
+    return Outer().run()
+
+def f0():
+    return dds.keep('/x/p', f1)
+""" % s}, ["inner", "outer"]
+
+
+def T_variables_of_library_types(s):
+    return {"main": HEAD + """
+import datetime
+import pathlib
+from collections import OrderedDict
+
+D0 = datetime.date(2020, 1, 1 + %(date)d)
+P0 = pathlib.PurePosixPath('/a/b%(path)d')
+O0 = OrderedDict([('k', %(od)d)])
+
+def f1():
+    return term('f1', str(D0), str(P0), O0['k'])
+
+def f0():
+    return dds.keep('/x/p', f1)
+""" % s}, ["date", "path", "od"]
+
+
 class _Zero(dict):
     def __missing__(self, k):
         return 0
 
 
+# explicit refusals of dds (DDSException with one of these codes): the construct is outside the supported subset
+REFUSALS = ("TYPE_NOT_SUPPORTED", "CONSTRUCT_NOT_SUPPORTED", "UNSUPPORTED_CALLABLE_TYPE", "AUTHORIZED_TYPE_NOT_UNDERSTOOD")
+
 TEMPLATES = [T_class_fresh, T_class_object_first, T_inheritance, T_staticmethod, T_import_forms, T_fun_in_variable,
              T_nested_and_comprehension, T_default_from_variable, T_method_calls_function, T_data_function_chain,
              T_class_attribute_from_variable, T_init_calls_function, T_from_import_variable, T_class_in_submodule,
-             T_generator_and_conditional_expression]
+             T_generator_and_conditional_expression, T_function_as_default_argument, T_reexport_and_relative_imports,
+             T_object_attribute_holds_object, T_variables_of_library_types]
+# T_module_level_lambda is not in the list: a lambda bound to a module variable is refused with an uncoded DDSException
+# ('Could not find call node'): outside the supported subset (the test-suite marks lambdas under dds.eval as not implemented)
 
 
 def run_extended(ctx, res, thorough):
@@ -354,8 +452,9 @@ def run_extended(ctx, res, thorough):
                         history.append(dict(slots))
                     files, _ = tmpl(dict(slots, pkg=pkg))
                     os.makedirs(os.path.join(base, pkg), exist_ok=True)
-                    with open(os.path.join(base, pkg, "__init__.py"), "w") as f:
-                        f.write("")
+                    if "__init__" not in files:
+                        with open(os.path.join(base, pkg, "__init__.py"), "w") as f:
+                            f.write("")
                     for name, src in files.items():
                         with open(os.path.join(base, pkg, name + ".py"), "w") as f:
                             f.write(src)
@@ -373,6 +472,10 @@ def run_extended(ctx, res, thorough):
                         continue
                     case = {"template": tmpl.__name__, "step": si, "edit": desc, "slots": dict(slots), "store": store_kind,
                             "files": files}
+                    if r["error"] is not None and r["error"].get("kind") == "dds" and r["error"].get("code") in REFUSALS:
+                        # said loudly to be outside the supported subset: not a wrong value
+                        res.count("extended_refused_" + str(r["error"].get("code")))
+                        break
                     if r["error"] is not None:
                         res.violations.append({"what": "extended stratum: dds fails where plain execution succeeds: %s" % (r["error"],),
                                                "input": case, "kf": None})
